@@ -284,7 +284,14 @@ class SimpleOperationExecutor:
     def _file_hash(self, filename):
         """Implementation of ``file_comparison_result`` for ``'HASH'``."""
         norm_cased_filename = os.path.normcase(filename)
-        is_built = self._new_cache.has_norm_cased_file(norm_cased_filename)
+
+        # If the file is in the middle of being built (by the caller, by an
+        # enclosing build_file* call, or in another thread), then the hash we
+        # compute might be that of a partially written file. We must not
+        # remember it as the hash of the built file.
+        status = self._new_cache.norm_cased_file_status(norm_cased_filename)
+        is_built = status is not None
+        is_building = status is False
 
         # Check _hash_cache
         with self._hash_cache_lock:
@@ -307,8 +314,9 @@ class SimpleOperationExecutor:
                 bytes_ = file_.read(1024)
         hash_ = digest.hexdigest()
 
-        with self._hash_cache_lock:
-            self._hash_cache[norm_cased_filename] = (hash_, is_built)
+        if not is_building:
+            with self._hash_cache_lock:
+                self._hash_cache[norm_cased_filename] = (hash_, is_built)
         return hash_
 
     def _is_file_no_read(self, norm_cased_filename, created_files):
